@@ -74,6 +74,27 @@ def loadLine (addr ks : Bytes) (wf : Bool) (st : State) (failAt : Nat) : String 
   | .panic => showOutcome (.panic, st)
   | .ok dbs => if failAt ≤ scanCommands st dbs then showOutcome (.err, st) else "unsupported"
 
+def subsetsOfSize : Nat → List Int → List (List Int)
+  | 0, _ => [[]]
+  | _ + 1, [] => []
+  | k + 1, x :: xs => (subsetsOfSize k xs).map (x :: ·) ++ subsetsOfSize (k + 1) xs
+
+/-- the target refuses the k-th command pair of the clearing phase (`select` or `hdel`): `ClearCheckpoint` stops there, the
+    load still succeeds. The dbs are visited in map order, so any k-1 of the stale dbs may have been cleared before. -/
+def loadClearFail (addr ks : Bytes) (st : State) (k : Nat) : String :=
+  match parseKeyspace ks with
+  | .err => showOutcome (.err, st)
+  | .panic => showOutcome (.panic, st)
+  | .ok dbs =>
+    let outs := (rotations dbs).flatMap fun o =>
+      match loadFrom exactMatch addr st o o with
+      | (.ok r off d, full) =>
+        let stale := dbs.filter (· != d)
+        if stale.length < k then [showOutcome (.ok r off d, full)]
+        else (subsetsOfSize (k - 1) stale).map fun sub => showOutcome (.ok r off d, clearAll addr d sub st)
+      | other => [showOutcome other]
+    " || ".intercalate outs.eraseDups
+
 def othersOf (st : State) (d : Int) : Nat :=
   match st.find? (fun p => p.1 == d) with
   | some p => p.2.others
@@ -110,6 +131,12 @@ def handle (line : String) : String :=
       | none => "err"
     | _, _ => "badcase"
   | ["load", a, k, wf, s, fa] =>
+    if fa.startsWith "cs" || fa.startsWith "ch" then
+      match ofHex a, ofHex k, parseState s, (fa.drop 2).toString.toNat? with
+      | some addr, some ks, some st, some n =>
+        if wf == "1" && infoKeyspace st != ks then "ksdrift" else loadClearFail addr ks st n
+      | _, _, _, _ => "badcase"
+    else
     match ofHex a, ofHex k, parseState s, fa.toNat? with
     | some addr, some ks, some st, some failAt => loadLine addr ks (wf == "1") st failAt
     | _, _, _, _ => "badcase"
